@@ -260,18 +260,30 @@ def make_models(lay, literal_of):
         p = ex.read_node(it.kids["input"])
         j = ex.ctx.c16_read
 
+        # the type this read decodes: the generic parameter of the enclosing next_inner::<X> instantiation (the inlined body itself only says `T`)
+        inst = [e.callee for e in st["events"] if e.kind == "inline" and re.search(r"::next_inner::<", e.callee)]
+        target = re.search(r"::next_inner::<(.*)>$", inst[-1]).group(1) if inst else ""
+        opt_target = re.match(r"(std::option::)?Option<", target) is not None or re.search(r"StrRead<'_>, (std::option::)?Option<", callee) is not None
+
         def elem(ex_, st_, tr, i):
             acc = z3.Bool(f"read{j}.accepts_elem{i}")
+            nul = z3.Bool(f"elem{i}.is_null")
 
-            def ok(ex2, st2, tr2):
+            def ok(ex2, st2, tr2, null=False):
                 it2 = tr2(tr(it))
                 it2.kids["offset"].val = z3.simplify(lay.end[i] - p)
                 st2["events"].append(Event("c16", f"parsed:{j}:{i}", [], [], None, None, "", ""))
-                return ex2.mk_variant("Option", 1, "Some", ex2.mk_variant("Result", 0, "Ok", Opaque(z3.Const(f"value:elem{i}@read{j}", OBJ))))
+                v = Opaque(z3.Const(f"value:elem{i}@read{j}", OBJ))
+                if opt_target:
+                    # the read's type is Option<T>: a JSON null is None, anything else T's reading of the element
+                    v = ex2.mk_variant("Option", 0, "None") if null else ex2.mk_variant("Option", 1, "Some", v)
+                return ex2.mk_variant("Option", 1, "Some", ex2.mk_variant("Result", 0, "Ok", v))
 
             def er(ex2, st2, tr2):
                 st2["events"].append(Event("c16", f"mismatch:{j}:{i}", [], [], None, None, "", ""))
                 return ex2.mk_variant("Option", 1, "Some", ex2.mk_variant("Result", 1, "Err", Opaque(z3.Const(f"serde_error:type@read{j}", OBJ))))
+            if opt_target:
+                return Fork([(z3.And(acc, nul), lambda e2, s2, t2: ok(e2, s2, t2, True)), (z3.And(acc, z3.Not(nul)), ok), (z3.And(z3.Not(acc), z3.Not(nul)), er)])
             return Fork([(acc, ok), (z3.Not(acc), er)])
 
         def f(ex_, st_, kind, tr=lambda x: x):
@@ -418,6 +430,10 @@ class Drv:
                 if z3.is_bv_value(od) and od.as_long() == 0:
                     out.append((list(p.pc), seq2, ("none",), p))
                     continue
+                if z3.is_bv_value(od) and od.as_long() == 1 and ("Some", 0) in pay.kids:
+                    pay = ex.read_node(pay.kids[("Some", 0)])
+                    while isinstance(pay, Node) and "discr" in pay.kids and ("Some", 0) in pay.kids:      # Option<Option<T>> flattened by the caller
+                        pay = ex.read_node(pay.kids[("Some", 0)])
             out.append((list(p.pc), seq2, ("ok", str(to_term(MM.value_of(ex, pay))) if pay is not None else "?"), p))
         return out
 
@@ -456,9 +472,13 @@ def explore(types, k, kinds, absent=False):
                             viol.append((z3.And(cond, acc), "error-on-acceptable-element", tr2))
                         nxt.append((pc2, seq2, i, True, tr2))
                     else:
-                        # 'absent' where an element stands: only a null read through optional_next may do that, and that is an Ok(value) here
-                        viol.append((cond, "absent-before-end", tr2))
-                        nxt.append((pc2, seq2, i, True, tr2))
+                        # 'absent' where an element stands: only optional_next at a JSON null may say that - and then the element is consumed
+                        nul = z3.Bool(f"elem{i}.is_null")
+                        if kind == "optional" and not d.ex.feasible(pc2 + [z3.Not(nul)]):
+                            nxt.append((pc2, seq2, i + 1, False, tr2))
+                        else:
+                            viol.append((cond, "absent-before-end", tr2))
+                            nxt.append((pc2, seq2, i, True, tr2))
                 else:
                     if kind == "next":
                         if out[0] != "err":
@@ -483,8 +503,25 @@ def _native_args(k, kinds, model, absent):
         m = re.match(r"read(\d+)\.accepts_elem(\d+)", name)
         if m:
             want[(int(m.group(1)), int(m.group(2)))] = (str(val) == "True")
+    nulls = {int(m_.group(1)) for name, val in model.items() for m_ in [re.match(r"elem(\d+)\.is_null$", name)] if m_ and str(val) == "True"}
     tys = ("u64", "String", "bool")
     vals = {"u64": lambda i: str(7 + i), "String": lambda i: '"s%d"' % i, "bool": lambda i: "true"}
+    if nulls:
+        # a null element: reads that accept it are typed Value (next) / anything (optional_next: Option<T> takes null); reads that refuse it u64
+        et = tuple("null" if i in nulls else "u64" for i in range(k))
+        rt = []
+        for j, kd in enumerate(kinds):
+            acc_null = [a for (jj, i), a in want.items() if jj == j and i in nulls]
+            acc_other = [a for (jj, i), a in want.items() if jj == j and i not in nulls]
+            if kd == "next" and any(acc_null):
+                rt.append("Value")
+            elif acc_other and not all(acc_other):
+                rt.append("String")
+            else:
+                rt.append("u64")
+        text = None if absent else ("[" + ws(g("ws_before0")) + "]" if k == 0 else
+                                    "[" + ",".join(ws(g(f"ws_before{i}")) + ("null" if i in nulls else str(7 + i)) + ws(g(f"ws_after{i}")) for i in range(k)) + "]")
+        return {"text": text, "reads": [[kd, rt[j]] for j, kd in enumerate(kinds)]}
     pick = None
     for rt in itertools.product(tys, repeat=len(kinds)):
         for et in itertools.product(tys, repeat=k):
@@ -636,6 +673,7 @@ def validate(types):
         for j, (kd, ty) in enumerate(reads):
             for i in range(k):
                 pin.append(z3.Bool(f"read{j}.accepts_elem{i}") == z3.BoolVal(_py_accepts(ty, elems[i]) or (kd != "next" and elems[i] is None)))
+        pin += [z3.Bool(f"elem{i}.is_null") == z3.BoolVal(elems[i] is None) for i in range(k)]
         sts = [(pc + pin, seq) for pc, seq in d.start_states() if d.ex.feasible(pc + pin)]
         if len(sts) != 1:
             return {"kinds": f"{len(sts)} start states"}
